@@ -321,7 +321,7 @@ static int sweep_c11(int argc, char **argv) {
     size_t backing = mtu + 32768;
     uint8_t *buf = malloc(backing);
     memset(buf, 0x80, backing);
-    unsigned long long cases = 0, nontriv = 0, clk_cases = 0, straddle = 0;
+    unsigned long long cases = 0, nontriv = 0, clk_cases = 0, straddle = 0, odd_cases = 0;
     const uint16_t GEN = 0x0102, XID = 0x0a0b;
     static const char *vname[] = {"empty", "same-seq", "different-seq", "other-generation", "other-mapper",
                                   "hole-then-same-seq", "hole-then-different-seq", "full-table-mapper-last-different-seq",
@@ -397,6 +397,36 @@ static int sweep_c11(int argc, char **argv) {
             }
         }
         }
+        /* unusual entries in front of the own address: all zero, broadcast, the own address with one bit flipped, the own
+         * address repeated - the list is searched to its end, an odd entry is just another station */
+        if (variant == 0 || variant == 2 || variant == 9) {
+            static const int ns2[] = {2, 3, 7, 240};
+            for (int ni = 0; ni < 4; ni++) for (int kind = 0; kind < 4; kind++) for (int p = 1; p < (ns2[ni] <= nmax ? ns2[ni] : nmax); p += (ns2[ni] > 7 ? 37 : 1)) {
+                int n = ns2[ni] <= nmax ? ns2[ni] : nmax;
+                vp_fill_stream(buf, mtu, fseed + 13);
+                size_t o = mk_base(buf, BCAST, MX, 0, 0, BCAST, MX, XID);
+                buf[o++] = GEN >> 8; buf[o++] = GEN & 255;
+                buf[o++] = (uint8_t)(n >> 8); buf[o++] = (uint8_t)n;
+                uint32_t s3 = fseed * 7919u + (uint32_t)n * 13u + (uint32_t)p;
+                for (size_t i = 36; i < mtu; i++) buf[i] = (uint8_t)(0x80 | (vp_prng(&s3) >> 9));
+                uint8_t odd[6];
+                if (kind == 0) memset(odd, 0, 6);
+                else if (kind == 1) memset(odd, 0xff, 6);
+                else { memcpy(odd, OWN, 6); odd[kind == 2 ? 0 : 5] ^= (kind == 2 ? 0x02 : 0x01); }
+                int q = (p * 5 + ni) % p;                 /* somewhere in front of the own address */
+                memcpy(buf + 36 + 6 * q, odd, 6);
+                memcpy(buf + 36 + 6 * p, OWN, 6);
+                int r = derive_session_event(buf, tab, OWN);
+                int e = c11_expect(1, changed);
+                cases++; odd_cases++;
+                if (r != e) {
+                    char key[128];
+                    static const char *kn[] = {"all-zero", "broadcast", "own-address-first-byte-flipped", "own-address-last-bit-flipped"};
+                    snprintf(key, sizeof(key), "C11:discover:own-address-not-recognised-behind-%s-entry:table=%s", kn[kind], vname[variant]);
+                    viol(key, "count=%d, %s entry at position %d, own address at position %d: derive_session_event=%d expected %d", n, kn[kind], q, p, r, e);
+                } else nontriv++;
+            }
+        }
         /* the own address at a byte offset that is not a multiple of six: it straddles two neighbouring entries and is
          * listed in neither - the Discover does not acknowledge */
         if (variant == 0 || variant == 2 || variant == 9) {
@@ -450,6 +480,7 @@ static int sweep_c11(int argc, char **argv) {
     stat_ull("cases", cases);
     stat_ull("clock_advanced_cases", clk_cases);
     stat_ull("straddling_cases", straddle);
+    stat_ull("odd_entry_cases", odd_cases);
     stat_ull("distinct_nontrivial", nontriv);
     stat_ull("violations", n_viol);
     printf("SAMPLE Discover count=n (1..%d), own address at list position p (0..n-1 or absent), table variant in "
